@@ -809,6 +809,8 @@ def d_call(cx, bi, t):
             return ("chrono-format-literal", "format literal %r uses only %%Y %%m %%d %%H %%M %%S and literals: rendering cannot fail" % v)
         return None
     if re.search(r"canonical::unescape_uri_encoding$", c):
+        if not query_values_normalised(cx.ctx):
+            return None  # the premise of the argument below does not hold in this tree
         sl = b.slice_op(t["args"][0])
         ok = any(re.search(r"HashMap::<K, V, S, A>::get$", tt["callee"]) and b.slice_op(tt["args"][0]).has_field("query_parameters") for _, tt in sl.calls)
         extra = [x for x in sl.callee_names() if not re.search(r"HashMap::<K, V, S, A>::get$|ops::Index::index$|Deref::deref$|String::as_str$|AsRef::as_ref$|Option::<T>::expect$", x)]
@@ -853,6 +855,36 @@ def d_call(cx, bi, t):
     if re.search(r"^core::panicking::", c):
         return d_panic_call(cx, bi, t)
     return None
+
+
+_QVN = {}
+
+
+def query_values_normalised(ctx):
+    """Premise of the `encoded-domain` discharge: every value query_string_to_normalized_map stores is the `?` result of
+    normalize_query_string_element, as it is (one source per String local on the way, nothing else producing a String):
+    a value kept `as presented` for some key (`X-Amz-Signature`) can hold a malformed escape, on which a later
+    unescape_uri_encoding panics."""
+    key = id(ctx.facts)
+    if key in _QVN:
+        return _QVN[key]
+    ok = True
+    try:
+        b = ctx.fn("canonical::query_string_to_normalized_map")
+        stop = lambda t_: bool(re.search(r"canonical::normalize_query_string_element$", t_.get("callee", "")))
+        sites = [(bi, t) for bi, t in b.calls(r"Vec::<T, A>::push$|HashMap::<K, V, S, A>::insert$|Extend::extend$|Vec::<T, A>::extend_from_slice$") if re.search(r"std::string::String", " ".join(t.get("arg_tys", [])[:1]) + t.get("resolved_full", ""))]
+        if not sites:
+            ok = False
+        for bi, t in sites:
+            sl = b.slice_op(t["args"][-1], stop_at_calls=stop)
+            odd = [c_ for c_ in sl.callee_names() if not re.search(r"canonical::normalize_query_string_element$|ops::Try::branch$|Box::<T>::new_uninit$|box_assume_init_into_vec_unsafe$|slice::<impl \[T\]>::into_vec$|boxed::box_new$|convert::(From::from|Into::into)$", c_)]
+            multi = [x for x in sl.locals if b.local_ty(x) == "std::string::String" and len([d for d in b.defs().get(x, []) if d["kind"] != "mutcall"]) != 1]
+            if odd or multi or not sl.has_call(r"canonical::normalize_query_string_element$"):
+                ok = False
+    except Exception:  # anchor lost: the premise is not established
+        ok = False
+    _QVN[key] = ok
+    return ok
 
 
 def range_forms(cx, operand):
